@@ -9,11 +9,14 @@ def run(ctx):
     ctx.trusted += [
         "Coq 8.16.1 kernel + vm_compute",
         "translate/tables.py for _pauli_products_map; hand model coq/model/Pauli.v (pauli_product) and "
-        "coq/model/Operator.v (add_term, +=, scalar multiple, operator product) tied to the code by vm_compute "
+        "coq/model/Operator.v / OperatorExt.v / OperatorAdj.v (add_term, +=, -=, /=, scalar multiple, operator product, commutator, "
+        "hermitian_conjugated) and coq/model/SparseExport.v (get_sparse_matrix: matrix list, scipy kron index rule, weighted sum) "
+        "tied to the code by vm_compute "
         "correspondence on Gaussian-integer coefficients (corr_C05.py) and AST fingerprints",
-        "documented Pauli matrices; numpy oracle (sweep_C05.py) for subtraction, division, dagger, commutator, sparse "
-        "export, bsv/transition amplitudes, Trotter-Suzuki, label interning and string round trip",
-        "partial: hermitian_conjugated, get_sparse_matrix, PauliLabel interning/str parsing have no "
+        "documented Pauli matrices; scipy.sparse.kron index rule (A (x) B)[i, j] = A[i // 2, j // 2] B[i % 2, j % 2] as modelled; "
+        "numpy oracle (sweep_C05.py) also for "
+        "bsv/transition amplitudes, Trotter-Suzuki, label interning and string round trip",
+        "partial: the sparse formats other than the dense view, PauliLabel interning/str parsing have no "
         "theorem (sweep only); coefficients are exact ring elements in the theorems (binary64 rounding not modelled)",
     ]
     ctx.translate("tables", tables.run_c06, os.path.join(ctx.work, "gen"), os.path.join(ctx.work, "conjtab.json"))
@@ -22,6 +25,9 @@ def run(ctx):
     fingerprint.check(ctx, "packages/core/quri_parts/core/operator/operator.py",
                       ["Operator.add_term", "Operator.__iadd__", "Operator.__isub__", "Operator.__mul__",
                        "Operator.__itruediv__", "Operator.hermitian_conjugated", "commutator"])
+    fingerprint.check(ctx, "packages/core/quri_parts/core/operator/sparse.py",
+                      ["_convert_pauli_label_to_sparse", "_convert_operator_to_sparse", "get_sparse_matrix"])
     ctx.coq(["conjtab.v"], ["C05.v"])
     ctx.harness("corr_C05.py", kind="corr")
+    ctx.harness("corr_C05_export.py", kind="corr")
     ctx.harness("sweep_C05.py")
